@@ -54,7 +54,7 @@ Fixpoint size_bytes (fuel : nat) (in_ext : bool) (acc : bytes) (st : stream) : d
   | S f =>
       match src_byte st with
       | (BByte b, st') =>
-          if Ascii.eqb b CR then (DOk (rev acc), st')
+          if Ascii.eqb b CR then (DOk (frev acc), st')
           else if in_ext then size_bytes f true acc st'
           else if Ascii.eqb b ";" then size_bytes f true acc st'
           else size_bytes f false (b :: acc) st'
@@ -211,16 +211,19 @@ Definition body_drop (c : cfg) (r : breader) (st : stream) (al : allocs) : strea
    Returns what was read, whether end-of-stream / an error was seen, and the new state. *)
 Inductive read_end := EndCount | EndEof | EndErr | EndBlock.
 Fixpoint take (c : cfg) (fuel : nat) (m : N) (n : nat) (r : breader) (st : stream) (al : allocs)
-              (acc : bytes) : bytes * read_end * breader * stream * allocs :=
+              (acc : list bytes) : list bytes * read_end * breader * stream * allocs :=
+  (* acc: the pieces obtained so far, latest first *)
   match fuel with
   | O => (acc, EndCount, r, st, al)
   | S f =>
       if (m =? 0)%N then (acc, EndCount, r, st, al) else
       let want := N.to_nat (N.min m (N.of_nat n)) in
       match body_read c want r st al with
-      | (RData d, r1, st1, al1) => take c f (m - len d)%N n r1 st1 al1 (acc ++ d)
+      | (RData d, r1, st1, al1) => take c f (m - len d)%N n r1 st1 al1 (d :: acc)
       | (REof, r1, st1, al1) => (acc, EndEof, r1, st1, al1)
       | (RErr, r1, st1, al1) => (acc, EndErr, r1, st1, al1)
       | (RBlock, r1, st1, al1) => (acc, EndBlock, r1, st1, al1)
       end
   end.
+(* the bytes obtained, in order *)
+Definition pieces_bytes (acc : list bytes) : bytes := List.concat (frev acc).
